@@ -84,6 +84,12 @@ CLAIMED = {
         "Documented places are restated in the harness (line start of field 72, whole {108:} value); other spellings are only used for agreement checks.",
         "DESIGN.md section 3, C17",
     ),
+    "C05": (
+        "runtime monitor: SWIFT-format-notation reference acceptor (three-valued) vs the 114 field parsers on class-labelled candidates derived from each documented format, plus field-level conservation",
+        "Exploration: for each of the 89 concrete field types and the 25 option families, every component at lengths 0, min-1, min, max, max+1, max+2, thirteen character classes at first / middle / last position, separators missing or doubled, embedded newlines, line counts 0, max+1, max+2, empty lines, trailing characters, case, plus seeded random edits and strings: accepted iff the reference acceptor says the content conforms (contents the documentation does not settle are not judged), and every accepted content must come back from serialisation.",
+        "Trusted base: spec/fieldfmt.rs (documented formats restated as data + 300-line interpreter). Disagreements were triaged in both directions (DESIGN.md section 8).",
+        "DESIGN.md section 3, C05",
+    ),
     "C06": (
         "runtime monitor: exact-decimal reference model on the amount text + independent ISO-4217 minor-unit table; class-labelled candidates through all amount/rate fields; value preservation through MT, JSON and JSON->MT",
         "Exploration: 20 amount / rate field types x 47 currencies (0/2/3/4 decimals) x non-decimal spellings (NaN, inf, exponent, signs, blanks, hex, non-ASCII digits ...) x magnitudes of 1-17 integer digits x 0-5 decimals around every length limit: accepted iff a decimal within the field's limit and the currency's precision; every accepted decimal keeps its exact value when serialised, in the JSON number and from JSON back to MT.",
